@@ -53,6 +53,10 @@ def run_desync_repeat(ctx):
 def extra(ctx):
     run_session_correspondence(ctx)
     run_desync_repeat(ctx)
+    # survivors with different views of a dropped player: the region of the recorded C10 finding, where only
+    # "both runs identical" is asked (label C17 alone; see the family)
+    from .simrun import run_scenarios
+    run_scenarios(ctx, F.fam_third_party_views(ctx.rng, sizes(ctx, 40, 400)), {"C17"}, "repeat_third_party_views")
 
 def run(ctx):
     generic_run(ctx, LABELS, extra=extra, plan=[("repeat", lambda: F.fam_c01(ctx.rng, sizes(ctx, 300, 3000), tag="c17", expect=("nodisconnect", "repeat"))),
